@@ -68,7 +68,9 @@ func suiteC20Hist(cfg Config, res *Result) {
 		n = 60000
 	}
 	rng := NewRNG(cfg.Seed)
-	names := []string{"a.tpl", "b.tpl", "./a.tpl", "sub/../b.tpl", "c.tpl"}
+	// names are plain text to the cache: characters that mean something to a shell pattern name only themselves
+	names := []string{"a.tpl", "b.tpl", "./a.tpl", "sub/../b.tpl", "c.tpl", "l[1].tpl", "*.tpl", "?.tpl", "[a-c].tpl", "a.tp?"}
+	files := []string{"a.tpl", "b.tpl", "c.tpl", "l[1].tpl", "*.tpl", "?.tpl", "[a-c].tpl", "a.tp?"}
 	bodies := []string{"x", "y{{ 1 }}", "{% if %}", "z"}
 	var reqs, impls, descs []string
 	for i := 0; i < n; i++ {
@@ -95,7 +97,7 @@ func suiteC20Hist(cfg Config, res *Result) {
 					ops = append(ops, cacheOp{k: "W", names: []string{rng.Pick(names[:2])}})
 				} else {
 					b := rng.Pick(bodies)
-					ops = append(ops, cacheOp{k: "W", names: []string{rng.Pick([]string{"a.tpl", "b.tpl", "c.tpl"})}, body: &b})
+					ops = append(ops, cacheOp{k: "W", names: []string{rng.Pick(files[:3+rng.Intn(len(files)-2)])}, body: &b})
 				}
 			default:
 				ops = append(ops, cacheOp{k: "G", names: []string{rng.Pick(names)}})
@@ -164,7 +166,7 @@ func suiteC20Hist(cfg Config, res *Result) {
 				set.CleanCache()
 				lastPtr = map[string]*pongo2.Template{}
 				inCache = map[string]bool{}
-				for _, nm := range []string{"a.tpl", "b.tpl", "c.tpl"} {
+				for _, nm := range files {
 					mustFetch[nm] = true
 				}
 			case "K":
